@@ -3,7 +3,7 @@ from .core import BASE_TRUST, LEAN, Problem
 
 META = {
     "category": "proof",
-    "text": "PARTIAL. Lean 4 proof, over facts regenerated from /repo on every run (extract/errfacts: go/ast + go/types over every package of the module), of: the loaders' totality and rectangularity (csv/tsv, ltsv, fixed-length: EVERY character string under EVERY option vector decodes to an error or to a table whose records all have the header's length - theorems csv_loader_total, ltsv_loader_total, fixed_loader_total, re-using C02); the error -> exit-code table (exit_code_total: every constructor of lib/query/error.go passes a return code of the manual's Return Code table or one of the three documented dynamic codes EXIT n / TRIGGER ERROR n / 128+signal; return_codes_documented, exit_default_documented, error_numbers_distinct, ctor_numbers_known, ctor_number_determines_code); the listed index-guard fragments (strToTime_index_in_range: every s[i] of value.StrToTime under the path conditions on len(s) read off the source is in range for every length; limit_in_bounds, offset_in_bounds, limit_percent_nan_refused from C07; cursor_index_inv from C16); and two static absence facts: no method call on an error variable where a DIFFERENT error variable is the one known non-nil (nil_error_sites_except_known) and no recover() guarded by state another goroutine sets (recover_unconditional_except_known) - each open site is reported as nilerr:<file>:<function>:<expr> / recover:<file>:<function>:<guard>. EXPLORATION for the rest of the property (a universally quantified absence over the whole program): process-level fuzzing of the real binary - arbitrary and mutated bytes x 6 formats x delimiter / positions / encoding / no-header / allow-uneven-fields / without-null / json-query as file, table object and stdin, with the rectangularity of the loaded view checked directly on the real loader; every key of the Functions / AggregateFunctions / AnalyticFunctions tables with 0-5 boundary arguments (scalar and over a 200-row table with --cpu 4); an IN-PROCESS function fuzzer (child processes of the harness call query.Functions[name] and the aggregate functions directly, under recover(), a memory limit and a watchdog: arity 0, ALL single values, ALL pairs over a typed compact pool of ~210 values [int64 / float boundaries, NULL, ternaries, datetimes, strings, every 1-character string over a 20-symbol alphabet, grammar-generated FORMAT / DATETIME_FORMAT strings, JSON texts, JSON queries incl. lone quotes and truncated forms, regular expressions, encoding / unit names] plus every 2-character string x 8 partners, ALL triples over a 16-value pool, a mode grid f(s,m) / f(s,x,m) / f(s,i,s2,m) / f(s,i,s2,m,m2) over 13 strings whose length, byte count and display width differ (empty, zero-width, combining, wide, surrogate pair, control, 5000 characters) x 6 small integers x 10 unit / encoding names, sampled 3-5-tuples: ~8 million calls per run; every recovered panic / stall is CONFIRMED on the real binary as csvq 'SELECT fn(<literals>)' before it is reported); JSON_OBJECT / JSON output key paths (aliases with dots, brackets, duplicates, empty) and malformed JSON queries through JSON_VALUE / JSON_ROW / JSON_TABLE / JSON_INLINE / JSON() / JSONL() / --json-query / SET @@JSON_QUERY; every clause and statement kind of the manual with holes filled from a boundary pool; file-system conditions (missing file, directory / dangling symlink / loop / FIFO in place of a file, unwritable targets of -o and CREATE TABLE, removed working directory, stale lock files); programs that reach the SAME file through different access paths in one transaction (plain name, quoted path, ./path, CSV/TSV/FIXED/JSON/JSONL/LTSV table functions, *_INLINE functions, sub-queries; read / FOR UPDATE / UPDATE / INSERT / DELETE / ALTER / after CREATE TABLE; every ordered pair per file, sampled triples); the grammars of structured option values (delimiter positions incl. s[], [ ], negative, decreasing, huge, nested, non-JSON; delimiter; encoding; line break; JSON escape; time zone; datetime format; numeric and boolean options) through every route that takes them (table function, command-line option, SET @@flag, ALTER TABLE, stdin, --out, csvq_env.json); option pairs over ragged / empty / blank-line data with column references beyond the shortest line; stale lock / read-lock / temp control files with wait timeouts 0, negative, tiny; joins of every kind x {field-less, empty, one, many rows} on each side at --cpu 1 and 4; option values crossed pairwise between the session level (option / SET @@) and the table-function arguments; user-defined functions whose body changes or reads tables, called from INSERT...SELECT / UPDATE / WHERE / JOIN / GROUP BY / ORDER BY; duplicate / unknown / too many names in USING, GROUP BY, ORDER BY, PARTITION BY, INSERT / REPLACE / CREATE / ALTER column lists; pathological LIKE patterns and regular expressions over 30-60 character subjects; tables with records but no fields in every clause position and output format; clause combinations in one query ({plain, analytic, aggregate, DISTINCT, GROUP BY, HAVING} x ORDER BY on {column, alias, ordinal, computed expression not in the list, aggregate, analytic, sub-query} x LIMIT / OFFSET over 2-5 rows); every output format x cells and header names that start with / end with / consist only of / contain each special character (CR, LF, CRLF, TAB, quotes, backslash, NUL, ESC, wide, combining, RTL, zero-width, BOM, invalid UTF-8 ...) with and without --out; window frames with int64-boundary offsets in every position (low / high bound x PRECEDING / FOLLOWING x every windowed function, 10 s watchdog); JSON Lines x json-query where the query yields [] / a scalar / a non-object for some lines (flag, JSONL(), SET @@JSON_QUERY, stdin); deterministic reproducers of the two KNOWN findings F83 (self / mutual SOURCE nesting) and F84 (unbounded user-defined-function recursion), run under a small address-space limit and recognised by the nested frames of the goroutine dump; real files with record counts on both sides of the loader's internal thresholds (299, 300, 301, 320, 450, 680, 2000 and generated counts) x file encodings (UTF-8, UTF-8 BOM, Shift_JIS, UTF-16 LE/BE with and without BOM) read with the matching option, AUTO or a wrong one x cell repertoires that shrink or grow under transcoding (ASCII, half-width katakana, CJK, emoji, mixed) x CSV / TSV / LTSV / fixed-length / JSON Lines. Oracle: exit code documented, no 'Fatal Error' / Go panic text, 20 s wall-clock bound (a time-out is reported only if the job names no large quantity and still does not end when it is re-run alone with 4 times the bound), rectangular view, and no exhaustion of the 3 GB address space by a program that names no large quantity and reads less than 32 KB (memory:unbounded_growth). The evidence lists exactly which functions, clauses, statements, options, formats, encodings, file-system conditions, exit codes and error classes were driven, and which generated function names were NOT",
+    "text": "PARTIAL. Lean 4 proof, over facts regenerated from /repo on every run (extract/errfacts: go/ast + go/types over every package of the module), of: the loaders' totality and rectangularity (csv/tsv, ltsv, fixed-length: EVERY character string under EVERY option vector decodes to an error or to a table whose records all have the header's length - theorems csv_loader_total, ltsv_loader_total, fixed_loader_total, re-using C02); the error -> exit-code table (exit_code_total: every constructor of lib/query/error.go passes a return code of the manual's Return Code table or one of the three documented dynamic codes EXIT n / TRIGGER ERROR n / 128+signal; return_codes_documented, exit_default_documented, error_numbers_distinct, ctor_numbers_known, ctor_number_determines_code); the listed index-guard fragments (strToTime_index_in_range: every s[i] of value.StrToTime under the path conditions on len(s) read off the source is in range for every length; limit_in_bounds, offset_in_bounds, limit_percent_nan_refused from C07; cursor_index_inv from C16); a reviewed list of the unchecked type assertions x.(T) of lib/action and lib/query/built_in_command.go (unchecked_assertions_reviewed: a new one breaks the obligation and is reported as assert:<file>:<function>:<expr>); and two static absence facts: no method call on an error variable where a DIFFERENT error variable is the one known non-nil (nil_error_sites_except_known) and no recover() guarded by state another goroutine sets (recover_unconditional_except_known) - each open site is reported as nilerr:<file>:<function>:<expr> / recover:<file>:<function>:<guard>. EXPLORATION for the rest of the property (a universally quantified absence over the whole program): process-level fuzzing of the real binary - arbitrary and mutated bytes x 6 formats x delimiter / positions / encoding / no-header / allow-uneven-fields / without-null / json-query as file, table object and stdin, with the rectangularity of the loaded view checked directly on the real loader; every key of the Functions / AggregateFunctions / AnalyticFunctions tables with 0-5 boundary arguments (scalar and over a 200-row table with --cpu 4); an IN-PROCESS function fuzzer (child processes of the harness call query.Functions[name] and the aggregate functions directly, under recover(), a memory limit and a watchdog: arity 0, ALL single values, ALL pairs over a typed compact pool of ~210 values [int64 / float boundaries, NULL, ternaries, datetimes, strings, every 1-character string over a 20-symbol alphabet, grammar-generated FORMAT / DATETIME_FORMAT strings, JSON texts, JSON queries incl. lone quotes and truncated forms, regular expressions, encoding / unit names] plus every 2-character string x 8 partners, ALL triples over a 16-value pool, a mode grid f(s,m) / f(s,x,m) / f(s,i,s2,m) / f(s,i,s2,m,m2) over 13 strings whose length, byte count and display width differ (empty, zero-width, combining, wide, surrogate pair, control, 5000 characters) x 6 small integers x 10 unit / encoding names, sampled 3-5-tuples: ~8 million calls per run; every recovered panic / stall is CONFIRMED on the real binary as csvq 'SELECT fn(<literals>)' before it is reported); JSON_OBJECT / JSON output key paths (aliases with dots, brackets, duplicates, empty) and malformed JSON queries through JSON_VALUE / JSON_ROW / JSON_TABLE / JSON_INLINE / JSON() / JSONL() / --json-query / SET @@JSON_QUERY; every clause and statement kind of the manual with holes filled from a boundary pool; file-system conditions (missing file, directory / dangling symlink / loop / FIFO in place of a file, unwritable targets of -o and CREATE TABLE, removed working directory, stale lock files); programs that reach the SAME file through different access paths in one transaction (plain name, quoted path, ./path, CSV/TSV/FIXED/JSON/JSONL/LTSV table functions, *_INLINE functions, sub-queries; read / FOR UPDATE / UPDATE / INSERT / DELETE / ALTER / after CREATE TABLE; every ordered pair per file, sampled triples); the grammars of structured option values (delimiter positions incl. s[], [ ], negative, decreasing, huge, nested, non-JSON; delimiter; encoding; line break; JSON escape; time zone; datetime format; numeric and boolean options) through every route that takes them (table function, command-line option, SET @@flag, ALTER TABLE, stdin, --out, csvq_env.json); option pairs over ragged / empty / blank-line data with column references beyond the shortest line; stale lock / read-lock / temp control files with wait timeouts 0, negative, tiny; joins of every kind x {field-less, empty, one, many rows} on each side at --cpu 1 and 4; option values crossed pairwise between the session level (option / SET @@) and the table-function arguments; user-defined functions whose body changes or reads tables, called from INSERT...SELECT / UPDATE / WHERE / JOIN / GROUP BY / ORDER BY; duplicate / unknown / too many names in USING, GROUP BY, ORDER BY, PARTITION BY, INSERT / REPLACE / CREATE / ALTER column lists; pathological LIKE patterns and regular expressions over 30-60 character subjects; tables with records but no fields in every clause position and output format; clause combinations in one query ({plain, analytic, aggregate, DISTINCT, GROUP BY, HAVING} x ORDER BY on {column, alias, ordinal, computed expression not in the list, aggregate, analytic, sub-query} x LIMIT / OFFSET over 2-5 rows); every output format x cells and header names that start with / end with / consist only of / contain each special character (CR, LF, CRLF, TAB, quotes, backslash, NUL, ESC, wide, combining, RTL, zero-width, BOM, invalid UTF-8 ...) with and without --out; window frames with int64-boundary offsets in every position (low / high bound x PRECEDING / FOLLOWING x every windowed function, 10 s watchdog); JSON Lines x json-query where the query yields [] / a scalar / a non-object for some lines (flag, JSONL(), SET @@JSON_QUERY, stdin); deterministic reproducers of the two KNOWN findings F83 (self / mutual SOURCE nesting) and F84 (unbounded user-defined-function recursion), run under a small address-space limit and recognised by the nested frames of the goroutine dump; real files with record counts on both sides of the loader's internal thresholds (299, 300, 301, 320, 450, 680, 2000 and generated counts) x file encodings (UTF-8, UTF-8 BOM, Shift_JIS, UTF-16 LE/BE with and without BOM) read with the matching option, AUTO or a wrong one x cell repertoires that shrink or grow under transcoding (ASCII, half-width katakana, CJK, emoji, mixed) x CSV / TSV / LTSV / fixed-length / JSON Lines. Oracle: exit code documented, no 'Fatal Error' / Go panic text, 20 s wall-clock bound (a time-out is reported only if the job names no large quantity and still does not end when it is re-run alone with 4 times the bound), rectangular view, and no exhaustion of the 3 GB address space by a program that names no large quantity and reads less than 32 KB (memory:unbounded_growth). The evidence lists exactly which functions, clauses, statements, options, formats, encodings, file-system conditions, exit codes and error classes were driven, and which generated function names were NOT",
     "design_ref": "DESIGN.md section 5, C19",
     "note": "proof for the loaders' totality/rectangularity (CSV/TSV/LTSV/fixed; JSON/JSONL loaders are explored only), the error-code table and the listed index-guard fragments; exploration for everything else => partial. Trusted: Lean kernel; extract/errfacts (syntactic, fails closed; nil-error and recover facts are intraprocedural patterns, not a nil-ness analysis); the loader models of C02 (tied to the code by C02's own correspondence); the harness oracle (text patterns, exit status). Not generated on purpose: external commands ($ ..., CALL), check-update (network), URLs, non-terminating programs (unbounded recursion / WHILE TRUE); children run under ulimit -v 3000000 and running out of memory under that limit is counted, not reported",
     "technique": "Lean 4 machine-checked proof over regenerated facts (kernel evaluation) + re-used loader / LIMIT / cursor theorems + process-level fuzzing of the real binary with a classifying, shrinking oracle",
@@ -68,6 +68,17 @@ def run(run):
             sg = "recover:%s:%s:%s" % (f["file"], f["fn"], f["guard"])
             static.append(Problem("direct", sg, {"what": "recover() skipped when `%s` is false: a panic in a second worker after the first recorded an error is not recovered and ends the process with a raw Go panic (static fact)" % f["guard"],
                                                  "site": "%s:%d" % (f["file"], f["line"]), "function": f["fn"]}, concrete=False, signature=sg))
+    # type assertions without comma-ok in the command layer that are not (yet) in the reviewed list of Props/C19.lean
+    if ok:
+        gtxt = GEN.read_text()
+        ptxt = (LEAN / "Csvq" / "Props" / "C19.lean").read_text()
+        reviewed = {m.group(1): int(m.group(2)) for m in re.finditer(r'\("(assert:(?:[^"\\]|\\.)*)", (\d+)\)', ptxt)}
+        for m in re.finditer(r'⟨%s, %s, %s, (true|false), (\d+)⟩' % (STR, STR, STR), section(gtxt, "uncheckedAssertions")):
+            f, fn, ex, safe, cnt = unq(m.group(1)), unq(m.group(2)), unq(m.group(3)), m.group(4) == "true", int(m.group(5))
+            sg = "assert:%s:%s:%s" % (f, fn, ex)
+            if not safe and cnt > reviewed.get(sg, 0):
+                static.append(Problem("direct", sg, {"what": "type assertion without the comma-ok form in the command layer that is not in the reviewed list (it panics - Fatal Error - when the value holds another type or nil); review it and add it to reviewedAssertions in lean/Csvq/Props/C19.lean, or use the comma-ok form",
+                                                     "file": f, "function": fn, "expression": ex, "occurrences": cnt, "reviewed_occurrences": reviewed.get(sg, 0)}, concrete=False, signature=sg))
     run.problems += static
 
     if ok:
@@ -135,6 +146,8 @@ def run(run):
             "jsonl_with_json_query": driven("jsonl-query:"),
             "clause_combinations": driven("combo:"), "output_formats": driven("output-format:"), "output_special_cells": driven("special:"), "output_placements": driven("placement:"),
             "deterministic_grids": "every grid is cut into 2-6 slices per kind of job; a round runs the slice (seed + round) mod k, so a quick run takes one slice that rotates with the seed and a thorough run (25 rounds) covers every slice several times",
+            "row_context_beside_aggregate_over_no_records": driven("emptyagg:"), "subcommand_texts": driven("subcommand-text:"), "hostile_environment": driven("env:"),
+            "multi_table_dml_over_outer_joins": driven("outer-dml:"), "select_into_shapes": driven("select-into:"),
             "ragged_data": driven("ragged:"), "stale_control_files": driven("lock:"), "wait_timeouts": driven("wait-timeout:"),
             "out_of_memory_commands_counted_not_reported": sorted(k[13:] for k in dist if k.startswith("observed_oom:")),
             "timed_out_commands_naming_a_large_quantity_counted_not_reported": sorted(k[17:] for k in dist if k.startswith("observed_timeout:")),
